@@ -999,6 +999,13 @@ def lazy_shape(ex, st, o):
     if m and m.group(1).strip() != 'u8':
         o.kind = 'vec'; o.attrs['items'] = [ex.fresh(st, m.group(1), 'elem') for _ in range(n)]
         return True
+    m = re.match(r'^(?:std::collections::|indexmap::)?(?:BTreeSet|HashSet|IndexSet)<(.+)>$', ty)
+    if m:
+        parts = split_top(m.group(1))
+        o.kind = 'map'; o.attrs['items'] = [(ex.fresh(st, parts[0], 'key'), ()) for _ in range(n)]
+        if n > 1 and all(z3.is_bv(k) for k, _ in o.attrs['items']):
+            st.pc.append(z3.Distinct(*[k for k, _ in o.attrs['items']]))
+        return True
     m = re.match(r'^(?:std::collections::|indexmap::)?(?:BTreeMap|HashMap|IndexMap)<(.+)>$', ty)
     if m:
         parts = split_top(m.group(1))
@@ -1360,6 +1367,13 @@ def consume_list(ctx, op, xs, extra, ret_ty, dest, nxt):
         return [(None, z3.BitVecVal(len(xs), 64))]
     if op == '__extend':
         shaped(ex, st, extra[0], 'vec').attrs['items'].extend(xs)
+        return [(None, ())]
+    if op == '__extend_map':
+        mm = shaped(ex, st, extra[0], 'map')
+        for it in xs:
+            mm.attrs['items'].append((it[0], it[1]) if isinstance(it, tuple) else (it, ()))
+        if xs and 'BTree' in mm.ty:
+            mm.attrs['unsorted'] = True
         return [(None, ())]
     if op == 'collect' or op == 'unzip':
         return [(None, collect_into(ex, st, xs, ret_ty))]
@@ -1751,6 +1765,11 @@ def m_map_extend(ctx):
     ex, st = ctx.ex, ctx.st
     m = shaped(ex, st, ctx.args[0], 'map')
     src = ex.deref_val(st, ctx.args[1])
+    if isinstance(src, Obj) and src.kind == 'mapiter' and src.attrs['inner'].kind != 'mapiter':
+        xs = drain_iter(ex, st, src.attrs['inner'])
+        c = Cont('mapcollect', pending=xs, done=[], f=src.attrs['f'], op='__extend_map', callee=ctx.callee, args=[ctx.args[0]], dest=ctx.dest, nxt=ctx.nxt, ret_ty=ctx.ret_ty,
+                 filter=bool(src.attrs.get('filter')), flat=bool(src.attrs.get('flat')))
+        return _mapcollect_step(ex, st, c, ctx.work)
     if isinstance(src, Obj) and src.kind == 'iter':
         src = src.attrs.get('src') if src.attrs.get('pos', 0) == 0 and not src.attrs.get('fn') else None
     if not isinstance(src, Obj) or 'items' not in src.attrs:
